@@ -234,6 +234,11 @@ class Inliner:
                 raise CannotInline('missing argument')
         return bind
 
+    @staticmethod
+    def _multi_used_impure(h: _Helper, bind) -> set:
+        body = _strip_doc(h.node.body)
+        return {p for p in bind if not _pure_simple(bind[p]) and _max_uses(body, p) > 1}
+
     def fresh(self, h: _Helper) -> str:
         self.counter += 1
         return f'__{h.name.strip("_")}{self.counter}'
@@ -245,6 +250,8 @@ class Inliner:
         stored = _stored_names(h.node)
         if stored & set(bind):
             return None       # a parameter is re-bound in the helper: not a pure substitution
+        if self._multi_used_impure(h, bind):
+            return None       # an argument with effects / a fresh object would be evaluated more than once
 
         def expr_of(stmts, env) -> Optional[ast.AST]:
             if not stmts:
@@ -253,8 +260,12 @@ class Inliner:
             if isinstance(st, ast.Return):
                 return _Rename({}, env).visit(copy.deepcopy(st.value)) if st.value is not None else ast.Constant(value=None)
             if isinstance(st, ast.Assign) and len(st.targets) == 1 and isinstance(st.targets[0], ast.Name):
+                nm = st.targets[0].id
+                uses = _max_uses(rest, nm)
+                if uses > 1 and not _pure_simple(st.value):
+                    return None      # a fresh object / a call used twice: substituting it would evaluate it twice
                 env2 = dict(env)
-                env2[st.targets[0].id] = _Rename({}, env).visit(copy.deepcopy(st.value))
+                env2[nm] = _Rename({}, env).visit(copy.deepcopy(st.value))
                 return expr_of(rest, env2)
             if isinstance(st, ast.If):
                 a = expr_of(list(st.body), env)
@@ -302,6 +313,7 @@ class Inliner:
                     fused = result.id
         pre: List[ast.stmt] = []
         subst = {}
+        stored = set(stored) | self._multi_used_impure(h, bind)
         for p, v in bind.items():
             if p in stored:
                 mapping.setdefault(p, p + sfx)
@@ -334,6 +346,9 @@ class Inliner:
                 if isinstance(st, ast.Return):
                     out += ret(st.value)
                     return out, True
+                if isinstance(st, ast.Raise):
+                    out.append(st)
+                    return out, True
                 if isinstance(st, ast.If):
                     b1, r1 = tr(list(st.body))
                     b2, r2 = tr(list(st.orelse))
@@ -351,11 +366,41 @@ class Inliner:
                         return out, rr
                     out.append(ast.If(test=st.test, body=b1 or [ast.Pass()], orelse=b2))
                     continue
+                if isinstance(st, (ast.For, ast.While)) and has_return([st]) and not st.orelse and mode != 'drop' and \
+                        not any(isinstance(y, (ast.For, ast.While)) and has_return([y])
+                                for b in st.body for y in ast.walk(b)):
+                    # a search loop: `for x in it: if c: return e` ... `return d`  becomes
+                    # `for x in it: if c: t = e; break` / `else: t = d`   (for-else runs only when nothing was found)
+                    def in_loop(nodes):
+                        res = []
+                        for n_ in nodes:
+                            if isinstance(n_, ast.Return):
+                                res += ret(n_.value) + [ast.Break()]
+                                return res
+                            if isinstance(n_, ast.If):
+                                n_ = copy.copy(n_)
+                                n_.body = in_loop(list(n_.body)) or [ast.Pass()]
+                                n_.orelse = in_loop(list(n_.orelse))
+                            elif isinstance(n_, (ast.Try, ast.With)) and has_return([n_]):
+                                raise CannotInline('return inside try / with inside a loop')
+                            res.append(n_)
+                        return res
+                    st2 = copy.copy(st)
+                    st2.body = in_loop(list(st.body))
+                    rest, rr = tr(list(stmts[k + 1:]))
+                    if not rr:
+                        rest += ret(None)
+                    st2.orelse = rest
+                    out.append(st2)
+                    return out, True
                 if isinstance(st, (ast.For, ast.While, ast.Try, ast.With)) and has_return([st]):
                     raise CannotInline('return inside a loop / try / with')
                 out.append(st)
             return out, False
-        new, always = tr(body)
+        if mode == 'return':
+            new, always = list(body), True     # returns stay returns
+        else:
+            new, always = tr(body)
         if not always and mode == 'assign':
             new += ret(None)
         out = pre + new
@@ -369,8 +414,15 @@ class Inliner:
             raise CannotInline('for-else')
         if _own_break(loop.body):
             raise CannotInline('break in the consuming loop')
-        return self._gen_body(h, bind, lambda e: [ast.Assign(targets=[copy.deepcopy(loop.target)], value=e)] +
-                              copy.deepcopy(loop.body),
+        def bind_target(e):
+            t = loop.target
+            if isinstance(t, ast.Tuple) and isinstance(e, ast.Tuple) and len(t.elts) == len(e.elts) and \
+                    all(isinstance(x, ast.Name) for x in t.elts):
+                lhs = {x.id for x in t.elts}
+                if not any(isinstance(y, ast.Name) and y.id in lhs for v in e.elts for y in ast.walk(v)):
+                    return [ast.Assign(targets=[copy.deepcopy(x)], value=v) for x, v in zip(t.elts, e.elts)]
+            return [ast.Assign(targets=[copy.deepcopy(t)], value=e)]
+        return self._gen_body(h, bind, lambda e: bind_target(e) + copy.deepcopy(loop.body),
                               lambda it: [ast.For(target=copy.deepcopy(loop.target), iter=it,
                                                   body=copy.deepcopy(loop.body), orelse=[])],
                               needs_loop=_own_continue(loop.body))
@@ -386,8 +438,10 @@ class Inliner:
         self.caller_names |= {n for n in stored if n not in mapping}
         pre: List[ast.stmt] = []
         subst = {}
+        stored = set(stored) | self._multi_used_impure(h, bind)
         for p, v in bind.items():
             if p in stored:
+                mapping.setdefault(p, p + sfx)
                 pre.append(ast.Assign(targets=[ast.Name(id=mapping[p], ctx=ast.Store())], value=copy.deepcopy(v)))
             else:
                 subst[p] = v
@@ -442,6 +496,53 @@ class Inliner:
         for s in out:
             ast.fix_missing_locations(s)
         return out
+
+
+def _max_uses(node, name: str) -> int:
+    """how often `name` can be read on one evaluation: the arms of a conditional are alternatives, not a sum; anything
+    under a loop, comprehension or lambda counts as many"""
+    if isinstance(node, list):
+        total = 0
+        for k, st in enumerate(node):
+            if isinstance(st, ast.If):
+                rest = node[k + 1:]
+                a = _max_uses(list(st.body), name) + (0 if _always_returns(st.body) else _max_uses(rest, name))
+                b = _max_uses(list(st.orelse), name) + (0 if st.orelse and _always_returns(st.orelse) else
+                                                         _max_uses(rest, name))
+                return total + _max_uses(st.test, name) + max(a, b)
+            total += _max_uses(st, name)
+        return total
+    if isinstance(node, ast.Name):
+        return 1 if node.id == name and isinstance(node.ctx, ast.Load) else 0
+    if isinstance(node, ast.IfExp):
+        return _max_uses(node.test, name) + max(_max_uses(node.body, name), _max_uses(node.orelse, name))
+    if isinstance(node, (ast.For, ast.While, ast.ListComp, ast.SetComp, ast.DictComp, ast.GeneratorExp, ast.Lambda)):
+        inner = sum(1 for x in ast.walk(node) if isinstance(x, ast.Name) and x.id == name and isinstance(x.ctx, ast.Load))
+        return 2 * inner
+    return sum(_max_uses(ch, name) for ch in ast.iter_child_nodes(node))
+
+
+_PURE_CALLS = {'len', 'abs', 'min', 'max', 'isinstance', 'int', 'float', 'str', 'bool', 'round', 'sum'}
+
+
+def _pure_simple(e: ast.AST) -> bool:
+    """an expression that may be evaluated several times instead of once: no fresh container, no call except a few
+    built-ins and `has_*` / `is_*` / `get` / `startswith` style queries"""
+    if isinstance(e, ast.Lambda):
+        return True          # a function value: making it twice is harmless
+    for x in ast.walk(e):
+        if isinstance(x, (ast.List, ast.Dict, ast.Set, ast.ListComp, ast.DictComp, ast.SetComp, ast.GeneratorExp,
+                          ast.Yield, ast.YieldFrom, ast.Await, ast.NamedExpr)):
+            return False
+        if isinstance(x, ast.Call):
+            f = x.func
+            if isinstance(f, ast.Name) and f.id in _PURE_CALLS:
+                continue
+            if isinstance(f, ast.Attribute) and (f.attr.startswith(('has_', 'is_', 'count')) or f.attr in (
+                    'get', 'startswith', 'endswith', 'lower', 'upper', 'strip', 'keys', 'values', 'items')):
+                continue
+            return False
+    return True
 
 
 def _always_returns(stmts) -> bool:
@@ -500,6 +601,39 @@ class _BetaArgs(ast.NodeTransformer):
         n = self.generic_visit(n)
         if isinstance(n.test, ast.Constant) and isinstance(n.test.value, bool):
             return n.body if n.test.value else n.orelse
+        return n
+
+    def visit_Expr(self, n):
+        n = self.generic_visit(n)
+        c = n.value
+        # d.update((k, v) for .. in ..)  is  for .. in ..: d[k] = v
+        if isinstance(c, ast.Call) and isinstance(c.func, ast.Attribute) and c.func.attr == 'update' and \
+                isinstance(c.func.value, ast.Name) and len(c.args) == 1 and not c.keywords and \
+                isinstance(c.args[0], (ast.GeneratorExp, ast.ListComp)) and isinstance(c.args[0].elt, ast.Tuple) and \
+                len(c.args[0].elt.elts) == 2:
+            g = c.args[0]
+            body: List[ast.stmt] = [ast.Assign(targets=[ast.Subscript(value=ast.Name(id=c.func.value.id, ctx=ast.Load()),
+                                                                      slice=g.elt.elts[0], ctx=ast.Store())],
+                                               value=g.elt.elts[1])]
+            for gen in reversed(g.generators):
+                for t in reversed(gen.ifs):
+                    body = [ast.If(test=t, body=body, orelse=[])]
+                body = [ast.For(target=gen.target, iter=gen.iter, body=body, orelse=[])]
+            for b in body:
+                ast.copy_location(b, n)
+                ast.fix_missing_locations(b)
+            return body
+        return n
+
+    def visit_BoolOp(self, n):
+        n = self.generic_visit(n)
+        vals = []
+        for v in n.values:     # a or (b or c)  is  a or b or c
+            if isinstance(v, ast.BoolOp) and type(v.op) is type(n.op):
+                vals += v.values
+            else:
+                vals.append(v)
+        n.values = vals
         return n
 
     def visit_If(self, n):
@@ -643,6 +777,46 @@ def inline_function(fn: ast.FunctionDef, cls: Optional[ast.ClassDef], inl: Inlin
                     setattr(st, fld, block(sub))
             for hd in getattr(st, 'handlers', []) or []:
                 hd.body = block(hd.body)
+            # a comprehension over a generator helper, as the whole value of an assignment / return: written as a loop
+            # (which the next case then reads through)
+            comp = st.value if isinstance(st, (ast.Assign, ast.Return)) and isinstance(
+                getattr(st, 'value', None), (ast.DictComp, ast.ListComp, ast.SetComp)) else None
+            if comp is not None and len(comp.generators) == 1 and isinstance(comp.generators[0].iter, ast.Call) and \
+                    (not isinstance(st, ast.Assign) or (len(st.targets) == 1 and isinstance(st.targets[0], ast.Name))):
+                t = inl.target(comp.generators[0].iter, cls)
+                if t is not None and t[0].is_gen:
+                    g = comp.generators[0]
+                    acc = st.targets[0].id if isinstance(st, ast.Assign) else f'result{inl.counter + 1}'
+                    used_in_comp = {x.id for x in ast.walk(comp) if isinstance(x, ast.Name)}
+                    if acc not in used_in_comp:
+                        if isinstance(comp, ast.DictComp):
+                            init = ast.Dict(keys=[], values=[])
+                            store: ast.stmt = ast.Assign(targets=[ast.Subscript(value=ast.Name(id=acc, ctx=ast.Load()),
+                                                                                slice=comp.key, ctx=ast.Store())],
+                                                         value=comp.value)
+                        elif isinstance(comp, ast.ListComp):
+                            init = ast.List(elts=[], ctx=ast.Load())
+                            store = ast.Expr(value=ast.Call(func=ast.Attribute(value=ast.Name(id=acc, ctx=ast.Load()),
+                                                                               attr='append', ctx=ast.Load()),
+                                                            args=[comp.elt], keywords=[]))
+                        else:
+                            init = ast.Call(func=ast.Name(id='set', ctx=ast.Load()), args=[], keywords=[])
+                            store = ast.Expr(value=ast.Call(func=ast.Attribute(value=ast.Name(id=acc, ctx=ast.Load()),
+                                                                               attr='add', ctx=ast.Load()),
+                                                            args=[comp.elt], keywords=[]))
+                        body_: List[ast.stmt] = [store]
+                        for tst in reversed(g.ifs):
+                            body_ = [ast.If(test=tst, body=body_, orelse=[])]
+                        new = [ast.Assign(targets=[ast.Name(id=acc, ctx=ast.Store())], value=init),
+                               ast.For(target=g.target, iter=g.iter, body=body_, orelse=[])]
+                        if isinstance(st, ast.Return):
+                            new.append(ast.Return(value=ast.Name(id=acc, ctx=ast.Load())))
+                        for s_ in new:
+                            ast.copy_location(s_, st)
+                            ast.fix_missing_locations(s_)
+                        changed[0] = True
+                        out += block(new)
+                        continue
             # generator helper consumed by this for loop
             if isinstance(st, ast.For) and isinstance(st.iter, ast.Call):
                 t = inl.target(st.iter, cls)
@@ -717,6 +891,85 @@ def inline_function(fn: ast.FunctionDef, cls: Optional[ast.ClassDef], inl: Inlin
     return changed[0]
 
 
+def fuse_staging_lists(fn: ast.FunctionDef) -> bool:
+    """`L = []` ... `L.extend(E)` / `L.append(e)` ... `for v in L: BODY`  ==>  BODY run where the items are produced
+    (`for v in E: BODY` / `v = e; BODY`).  Only when L is a local used for nothing else, the consumer follows the
+    producers in the same block, and BODY neither leaves its loop nor binds a name the producers read: then the staged
+    list only delays BODY, it does not change what BODY is run on."""
+    changed = [False]
+
+    def names_loaded(nodes) -> set:
+        return {x.id for n in nodes for x in ast.walk(n) if isinstance(x, ast.Name) and isinstance(x.ctx, ast.Load)}
+
+    def names_stored(nodes) -> set:
+        return {x.id for n in nodes for x in ast.walk(n) if isinstance(x, ast.Name) and isinstance(x.ctx, ast.Store)}
+
+    def block(stmts: List[ast.stmt]) -> List[ast.stmt]:
+        for st in stmts:
+            for fld in ('body', 'orelse', 'finalbody'):
+                sub = getattr(st, fld, None)
+                if isinstance(sub, list) and sub and isinstance(sub[0], ast.stmt):
+                    setattr(st, fld, block(sub))
+        k = 0
+        while k < len(stmts):
+            st = stmts[k]
+            if isinstance(st, ast.Assign) and len(st.targets) == 1 and isinstance(st.targets[0], ast.Name) and \
+                    isinstance(st.value, ast.List) and not st.value.elts:
+                L = st.targets[0].id
+                # the consumer: the next statement of this block that mentions L outside a producer call
+                cons = None
+                for j in range(k + 1, len(stmts)):
+                    s2 = stmts[j]
+                    if isinstance(s2, ast.For) and isinstance(s2.iter, ast.Name) and s2.iter.id == L and not s2.orelse:
+                        cons = j
+                        break
+                if cons is not None:
+                    region = stmts[k + 1:cons]
+                    loop = stmts[cons]
+                    uses = [x for n in region for x in ast.walk(n) if isinstance(x, ast.Name) and x.id == L]
+                    prod = [x for n in region for x in ast.walk(n) if isinstance(x, ast.Call) and
+                            isinstance(x.func, ast.Attribute) and isinstance(x.func.value, ast.Name) and
+                            x.func.value.id == L and x.func.attr in ('extend', 'append') and len(x.args) == 1]
+                    prod_stmts = [n for r in region for n in ast.walk(r) if isinstance(n, ast.Expr) and n.value in prod]
+                    later = [x for n in stmts[cons + 1:] for x in ast.walk(n) if isinstance(x, ast.Name) and x.id == L]
+                    inside = [x for x in ast.walk(loop) if isinstance(x, ast.Name) and x.id == L and x is not loop.iter]
+                    body_exits = any(isinstance(x, (ast.Return, ast.Yield, ast.YieldFrom)) for b in loop.body
+                                     for x in ast.walk(b)) or _own_break(loop.body) or _own_continue(loop.body)
+                    clash = (names_stored(loop.body) | names_stored([loop.target])) & names_loaded(region)
+                    if prod and len(uses) == len(prod) == len(prod_stmts) and not later and not inside and \
+                            not body_exits and not clash:
+                        def rewrite(nodes):
+                            out = []
+                            for n in nodes:
+                                if isinstance(n, ast.Expr) and n.value in prod:
+                                    c_ = n.value
+                                    if c_.func.attr == 'extend':
+                                        out.append(ast.copy_location(ast.For(
+                                            target=copy.deepcopy(loop.target), iter=c_.args[0],
+                                            body=copy.deepcopy(loop.body), orelse=[]), n))
+                                    else:
+                                        out.append(ast.copy_location(ast.Assign(
+                                            targets=[copy.deepcopy(loop.target)], value=c_.args[0]), n))
+                                        out += copy.deepcopy(loop.body)
+                                    continue
+                                for fld in ('body', 'orelse', 'finalbody'):
+                                    sub = getattr(n, fld, None)
+                                    if isinstance(sub, list) and sub and isinstance(sub[0], ast.stmt):
+                                        setattr(n, fld, rewrite(sub) or [ast.Pass()])
+                                out.append(n)
+                            return out
+                        new_region = rewrite(region)
+                        stmts[k:cons + 1] = new_region
+                        changed[0] = True
+                        continue
+            k += 1
+        return stmts
+    fn.body = block(fn.body)
+    if changed[0]:
+        ast.fix_missing_locations(fn)
+    return changed[0]
+
+
 def normalise_module(tree: ast.Module, modname: str) -> Dict[str, List[str]]:
     """in place; returns {function qualname: [helpers read through / 'unrolled']} for the record"""
     inv = inventory().get(modname)
@@ -741,7 +994,16 @@ def normalise_module(tree: ast.Module, modname: str) -> Dict[str, List[str]]:
                 counts[t.id] = counts.get(t.id, 0) + 1
                 if getattr(st, 'value', None) is not None and isinstance(st.value, (ast.Tuple, ast.List)):
                     mod_tables[t.id] = st.value
-    mod_tables = {k: v for k, v in mod_tables.items() if counts.get(k) == 1 and k not in inv.get('__tables__', {})}
+    known_tops = set((inv.get('__toplevel__') or '').split())
+    mod_tables = {k: v for k, v in mod_tables.items() if counts.get(k) == 1}
+    # literal tables (dict / tuple / list / set displays) bound once at module level that the reference tree does not
+    # have: a constant moved out of a function; read where it is used
+    new_consts: Dict[str, ast.AST] = {}
+    for st in tree.body:
+        if isinstance(st, ast.Assign) and len(st.targets) == 1 and isinstance(st.targets[0], ast.Name) and \
+                isinstance(st.value, (ast.Dict, ast.Tuple, ast.List, ast.Set)) and counts.get(st.targets[0].id) == 1 and \
+                st.targets[0].id not in known_tops:
+            new_consts[st.targets[0].id] = st.value
     for _pass in range(4):
         any_change = False
         for q in sorted(changed):
@@ -760,6 +1022,16 @@ def normalise_module(tree: ast.Module, modname: str) -> Dict[str, List[str]]:
                 if inl.helpers and inline_function(fn, cls, inl):
                     any_change = True
                     record.setdefault(q, []).extend(sorted(set(inl.inlined[before:])))
+                if new_consts:
+                    shadow = _stored_names(fn) | {a.arg for a in ast.walk(fn) if isinstance(a, ast.arg)}
+                    env_c = {k: v for k, v in new_consts.items() if k not in shadow}
+                    used = {x.id for x in ast.walk(fn) if isinstance(x, ast.Name) and isinstance(x.ctx, ast.Load)}
+                    if env_c and used & set(env_c):
+                        _Rename({}, env_c).visit(fn)
+                        record.setdefault(q, []).append('module-level literal read in place')
+                if fuse_staging_lists(fn):
+                    any_change = True
+                    record.setdefault(q, []).append('staging list fused')
                 fn2 = _BetaArgs().visit(fn)
                 ast.fix_missing_locations(fn2)
             except Exception as e:  # a normalisation that fails leaves the function as it is
@@ -789,5 +1061,11 @@ def write_inventory(root: str, path: str = _INV_PATH) -> int:
                 tree = ast.parse(open(p, encoding='utf-8').read())
             inv['.'.join(parts)] = {q: body_digest(nd) for q, (nd, c) in module_functions(tree).items()}
             n += len(inv['.'.join(parts)])
+            tops = []
+            for st in tree.body:
+                for t in (st.targets if isinstance(st, ast.Assign) else [st.target] if isinstance(st, ast.AnnAssign) else []):
+                    if isinstance(t, ast.Name):
+                        tops.append(t.id)
+            inv['.'.join(parts)]['__toplevel__'] = ' '.join(sorted(set(tops)))
     json.dump(inv, open(path, 'w'), indent=0, sort_keys=True)
     return n
